@@ -222,4 +222,15 @@ def proof_stage(chk, modules, extra_targets=()):
         "theorems": a["theorems"],
     })
     ok = not a["problems"] and a["obligations"] == a["discharged"] and a["obligations"] > 0
+    if ok and chk.tier == "thorough":
+        # independent re-check of the compiled theorems by the toolchain's leanchecker (replays every declaration
+        # of the property's modules through the kernel, outside the elaborator)
+        try:
+            r = subprocess.run(["lake", "env", "leanchecker"] + list(modules), cwd=LEAN, capture_output=True, text=True, timeout=1800)
+            chk.coverage["leanchecker"] = {"modules": list(modules), "exit": r.returncode, "output_tail": (r.stdout + r.stderr)[-300:]}
+            if r.returncode != 0:
+                info["problems"] = ["leanchecker rejected the compiled modules: " + (r.stdout + r.stderr)[-600:]]
+                ok = False
+        except Exception as exc:  # noqa
+            chk.coverage["leanchecker"] = {"error": type(exc).__name__ + ": " + str(exc)[:200]}
     return ok, info
